@@ -115,6 +115,8 @@ struct Thr {
   void *(*fn)(void *);
   void *arg;
   uint64_t guard_hits;
+  int ktid;         // kernel thread id (reap_exits)
+  int started;
 };
 struct MutexRec { void *addr; int owner; int depth; };
 struct CondRec { void *addr; int waiters[MAXT]; int nw; };
@@ -149,9 +151,18 @@ static inline void fwake(Thr *t) {
   __atomic_store_n(&t->go, 1, __ATOMIC_RELEASE);
   syscall(SYS_futex, &t->go, FUTEX_WAKE_PRIVATE, 1, 0, 0, 0);
 }
+// reap_exits: kernel tid of a simulated thread that has finished but whose real teardown (TSD destructors, the
+// sanitizer's per-thread allocator cache going back to the central lists) may still be running.  Whoever gets the
+// baton next waits for it to be gone, so that no real code of two threads ever overlaps -- not even that teardown.
+static int g_zombie_ktid = 0;
 static inline void fpark(Thr *t) {
   while (__atomic_load_n(&t->go, __ATOMIC_ACQUIRE) == 0) syscall(SYS_futex, &t->go, FUTEX_WAIT_PRIVATE, 0, 0, 0, 0);
   __atomic_store_n(&t->go, 0, __ATOMIC_RELAXED);
+  if (g_zombie_ktid) {
+    int z = g_zombie_ktid, pid = (int)syscall(SYS_getpid);
+    while (syscall(SYS_tgkill, pid, z, 0) == 0) syscall(SYS_sched_yield);
+    g_zombie_ktid = 0;
+  }
 }
 
 static int mutex_ord(void *a) {
@@ -410,6 +421,7 @@ static void sched(Thr *self) {
       g_res.switches++;
       bool done = (self->state == T_DONE);
       if (done) tl_self = nullptr;
+      if (done && g_cfg.reap_exits) g_zombie_ktid = self->ktid;
       fwake(next);
       if (!done) fpark(self);
     }
@@ -444,6 +456,7 @@ extern "C" void sim_begin(const SimConfig *cfg) {
   g_steps = 0; g_seq = 0; g_sig = FNV_INIT; g_now_ns = 0;
   g_trace_len = 0; g_trace_pos = 0; g_log_len = 0;
   g_spurious_left = cfg->spurious_budget;
+  g_zombie_ktid = 0;
   g_rng.seed(cfg->seed);
   int el = cfg->expected_len > 1 ? cfg->expected_len : 2;
   for (int k = 0; k < 16; k++) g_cp[k] = 1 + g_rng.below((uint64_t)el);
@@ -488,6 +501,8 @@ extern "C" void sim_yield(void) {
 static void *trampoline(void *p) {
   Thr *t = (Thr *)p;
   tl_self = t;
+  t->ktid = (int)syscall(SYS_gettid);
+  __atomic_store_n(&t->started, 1, __ATOMIC_RELEASE);
   fpark(t);
   void *r = t->fn(t->arg);
   // the thread function returned
@@ -510,6 +525,8 @@ extern "C" int pthread_create(pthread_t *tid, const pthread_attr_t *attr, void *
   int rc = real_pthread_create()(&t.real, attr, trampoline, &t);
   if (rc) { g_nthr--; return rc; }
   t.real_valid = true;
+  // reap_exits: the new thread's start-up (runtime bookkeeping before it parks) is over before the creator goes on
+  if (g_cfg.reap_exits) while (!__atomic_load_n(&t.started, __ATOMIC_ACQUIRE)) syscall(SYS_sched_yield);
   if (attr) { int ds = 0; pthread_attr_getdetachstate(attr, &ds); if (ds == PTHREAD_CREATE_DETACHED) t.detached = true; }
   *tid = t.real;
   ev(OP_CREATE, t.ord, 0);
